@@ -1600,15 +1600,17 @@ example : dProbOps [.meas 0 true, .meas 1 true] (dstate ghz3) = (1 / 2 : ℂ) ^ 
     rw [hrun] at this; cases this
   | ok t' => exact born_rule_history _ hwf ghz3 t' ghz3_valid ghz3_stabReal hrun
 
-/-! ### 7.12 FINDING: `measure_x` / `measure_y` leave the tableau in the rotated basis
+/-! ### 7.12 X / Y measurements: `measure_x`, `measure_y`, `x_measurement_gate`, `Stabilizer.apply_x_measurement`
 
-  `clifford.py` also exports `measure_x`, `measure_y`, `measure_z`.  They are not part of `Model/Tableau.lean` and the
-  correspondence harness does not run them; `measXCoded` / `measYCoded` (`Proofs/HilbertDimMeasXY.lean`) transcribe the Python
-  (basis change applied to the caller's tableau in place, `z_measurement_gate`, outcome returned, nothing undone); the behaviour
-  stated below was reproduced on `/repo` by hand (`handoff/deep-c07h.md`, finding F1; F2: `Stabilizer.apply_x_measurement`
-  calls a function `x_measurement_gate` that does not exist). -/
+  Defects D52 / D53 (found while extending the Hilbert-space reading, repaired in `/repo`): before the repair `measure_x` /
+  `measure_y` applied their change of basis to the caller's tableau in place and never undid it, and
+  `Stabilizer.apply_x_measurement` called a function `x_measurement_gate` that did not exist.  The first two theorems below are
+  about a transcription of the OLD code (`measXCoded`, `Proofs/HilbertDimMeasXY.lean`) and document the defect; reverting the
+  repair makes the harness report `state:measure_x:wrong-state`.  The model of the repaired code is `Tab.measX` / `Tab.measY` /
+  `Tab.applyOpX` (`Model/Tableau.lean`), compared with the implementation on every run (driver tokens `measx`, `measy`,
+  `xmeas`), and the remaining theorems are about it. -/
 
-/-- **what `measure_x` as coded does**: the reported outcome `s` is the X-measurement outcome, but the tableau left behind is
+/-- **what `measure_x` did before the repair D52**: the reported outcome `s` is the X-measurement outcome, but the tableau left behind is
     `H · (Π_X ρ Π_X / tr(Π_X ρ)) · H†` — the post-measurement state conjugated by a Hadamard that is never undone (the qubit
     is left in `|0⟩/|1⟩` instead of `|+⟩/|−⟩`) -/
 theorem measure_x_as_coded_leaves_a_hadamard (t : Tab) (q : Nat) (o : Bool) (hq : q < t.n) (hv : t.Valid)
@@ -1620,13 +1622,99 @@ theorem measure_x_as_coded_leaves_a_hadamard (t : Tab) (q : Nat) (o : Bool) (hq 
     (measXCoded t q o).1 = ((t.hGate q).zMeasure q o).1 :=
   ⟨(measXCoded_density t q o hq hv hr).1, (measXCoded_density t q o hq hv hr).2, rfl⟩
 
-/-- **refutation witness** (kernel-checked): on `|++⟩` the X-measurement of qubit 0 is deterministic (outcome 0), so the
-    state must not change; after `measure_x` as coded the tableau has the generator `Z₀` instead of `X₀` and its density
+/-- **refutation witness for the old code** (kernel-checked): on `|++⟩` the X-measurement of qubit 0 is deterministic
+    (outcome 0), so the state must not change; after the old `measure_x` the tableau has the generator `Z₀` instead of `X₀` and its density
     matrix differs from the input's -/
 theorem measure_x_refuted (o : Bool) :
     ((Tab.plus 2).hGate 0).pivot 0 = none ∧ (measXCoded (Tab.plus 2) 0 o).2 = false ∧
     Grp (measXCoded (Tab.plus 2) 0 o).1 (Zq 0) ∧ Grp (Tab.plus 2) (Xq 0) ∧
     rho 2 (STab.ofTab (measXCoded (Tab.plus 2) 0 o).1) ≠ rho 2 (STab.ofTab (Tab.plus 2)) :=
   measX_plus_witness o
+
+/-- side condition for the extended API -/
+def WFX : Tab.OpX → Prop
+  | .base op => WF op
+  | _ => True
+
+theorem wfx_desugar (xs : List Tab.OpX) (h : ∀ x ∈ xs, WFX x) : ∀ op ∈ xs.flatMap Tab.OpX.desugar, WF op := by
+  intro op hop
+  rw [List.mem_flatMap] at hop
+  obtain ⟨x, hx, hox⟩ := hop
+  have hw := h x hx
+  cases x with
+  | base b =>
+    simp only [Tab.OpX.desugar, List.mem_cons, List.mem_nil_iff, or_false] at hox
+    rw [hox]; exact hw
+  | measX q o =>
+    simp only [Tab.OpX.desugar, List.mem_cons, List.mem_nil_iff, or_false] at hox
+    rcases hox with rfl | rfl | rfl <;> trivial
+  | xMeasGate q o =>
+    simp only [Tab.OpX.desugar, List.mem_cons, List.mem_nil_iff, or_false] at hox
+    rcases hox with rfl | rfl | rfl <;> trivial
+  | measY q o =>
+    simp only [Tab.OpX.desugar, List.mem_cons, List.mem_nil_iff, or_false] at hox
+    rcases hox with rfl | rfl | rfl | rfl | rfl <;> trivial
+
+/-- **`measure_x` / `x_measurement_gate` / `Stabilizer.apply_x_measurement` (repaired), group level and Hilbert level.**
+    The call is `hadamard_gate; z_measurement_gate; hadamard_gate`; the result is valid with real stabilizer rows on the same
+    qubits; its stabilizer group is the abstract semantics of these three operations applied to the old group; its density
+    matrix is the normalised projection `Π^X_s ρ Π^X_s / tr(Π^X_s ρ)` on the eigenvalue `(-1)^s` of `X_q`, `s` the reported
+    outcome — the forced / drawn `o` unless `tr(Π^X_o ρ) = 0`. -/
+theorem measure_x_spec (t : Tab) (q : Nat) (o : Bool) (hq : q < t.n) (hv : t.Valid) (hr : t.StabReal) :
+    (t.measX q o).1.Valid ∧ (t.measX q o).1.StabReal ∧ (t.measX q o).1.n = t.n ∧
+    gstate (t.measX q o).1 = specOps [.h q, .meas q o, .h q] (gstate t) ∧
+    rho t.n (STab.ofTab (t.measX q o).1)
+      = (Matrix.trace (proj t.n (Xq q (t.measX q o).2.1) * rho t.n (STab.ofTab t)))⁻¹ •
+          (proj t.n (Xq q (t.measX q o).2.1) * rho t.n (STab.ofTab t) * proj t.n (Xq q (t.measX q o).2.1)) ∧
+    ((t.measX q o).2.1 = if Matrix.trace (proj t.n (Xq q o) * rho t.n (STab.ofTab t)) = 0 then !o else o) ∧
+    t.applyOpX (.measX q o) = t.applyOpX (.xMeasGate q o) := by
+  obtain ⟨h1, h2, h3, h4, h5⟩ := rho_measX t q o hq hv hr
+  have hrun : t.runOps [.h q, .meas q o, .h q] = .ok (t.measX q o).1 := by
+    have := applyOpX_runOps t (.measX q o)
+    simp only [Tab.applyOpX, hq, if_true, Tab.OpX.desugar] at this
+    exact this.symm
+  have hst := history_tracks_state [.h q, .meas q o, .h q] (by
+    intro op hop
+    simp only [List.mem_cons, List.mem_nil_iff, or_false] at hop
+    rcases hop with rfl | rfl | rfl <;> trivial) t _ hv hr hrun
+  exact ⟨h3, h4, h5, hst.2.2, h1, h2, rfl⟩
+
+/-- **`measure_y` (repaired)**: `phase_dagger_gate; hadamard_gate; z_measurement_gate; hadamard_gate; phase_gate` is the
+    projective measurement of `Y_q` -/
+theorem measure_y_spec (t : Tab) (q : Nat) (o : Bool) (hq : q < t.n) (hv : t.Valid) (hr : t.StabReal) :
+    (t.measY q o).1.Valid ∧ (t.measY q o).1.StabReal ∧ (t.measY q o).1.n = t.n ∧
+    gstate (t.measY q o).1 = specOps [.sdg q, .h q, .meas q o, .h q, .s q] (gstate t) ∧
+    rho t.n (STab.ofTab (t.measY q o).1)
+      = (Matrix.trace (proj t.n (Yrow q (t.measY q o).2.1) * rho t.n (STab.ofTab t)))⁻¹ •
+          (proj t.n (Yrow q (t.measY q o).2.1) * rho t.n (STab.ofTab t) * proj t.n (Yrow q (t.measY q o).2.1)) ∧
+    ((t.measY q o).2.1 = if Matrix.trace (proj t.n (Yrow q o) * rho t.n (STab.ofTab t)) = 0 then !o else o) := by
+  obtain ⟨h1, h2, h3, h4, h5⟩ := rho_measY t q o hq hv hr
+  have hrun : t.runOps [.sdg q, .h q, .meas q o, .h q, .s q] = .ok (t.measY q o).1 := by
+    have := applyOpX_runOps t (.measY q o)
+    simp only [Tab.applyOpX, hq, if_true, Tab.OpX.desugar] at this
+    exact this.symm
+  have hst := history_tracks_state [.sdg q, .h q, .meas q o, .h q, .s q] (by
+    intro op hop
+    simp only [List.mem_cons, List.mem_nil_iff, or_false] at hop
+    rcases hop with rfl | rfl | rfl | rfl | rfl <;> trivial) t _ hv hr hrun
+  exact ⟨h3, h4, h5, hst.2.2, h1, h2⟩
+
+/-- **History theorems for the API extended by the X / Y measurements** (`Tab.OpX`, `Tab.runOpsX`): an extended history is the
+    history of its base operations (`desugar`), so validity, reality of the stabilizer rows, the group-level refinement, the
+    density-matrix refinement and the Born rule all hold along every accepted extended history. -/
+theorem history_extended_api (xs : List Tab.OpX) (hxs : ∀ x ∈ xs, WFX x) (t t' : Tab) (hv : t.Valid) (hr : t.StabReal)
+    (h : t.runOpsX xs = .ok t') :
+    t.runOps (xs.flatMap Tab.OpX.desugar) = .ok t' ∧ t'.Valid ∧ t'.StabReal ∧
+    gstate t' = specOps (xs.flatMap Tab.OpX.desugar) (gstate t) ∧
+    dstate t' = dOps (xs.flatMap Tab.OpX.desugar) (dstate t) ∧
+    dProbOps (xs.flatMap Tab.OpX.desugar) (dstate t) = (1 / 2 : ℂ) ^ randOps t (xs.flatMap Tab.OpX.desugar) := by
+  rw [runOpsX_eq_runOps] at h
+  have hw := wfx_desugar xs hxs
+  obtain ⟨v, r, g⟩ := history_tracks_state _ hw t t' hv hr h
+  exact ⟨h, v, r, g, history_tracks_density _ hw t t' hv hr h, born_rule_history _ hw t t' hv hr h⟩
+
+/-- GHZ₃: `measure_x` of qubit 0 is random; `measure_y` of qubit 1 afterwards — the extended history is accepted -/
+example : (match ghz3.runOpsX [.measX 0 true, .measY 1 false, .xMeasGate 2 true] with
+    | .ok t' => t'.n == 3 && t'.isSymplectic | .error _ => false) = true := by decide +kernel
 
 end Graphiq.C07
